@@ -49,6 +49,7 @@ PROBES = ['smtp', 'http', 'null-sender', 'quoted-local-part', 'utf8-address',
           'no-pipelining', 'no-8bitmime', 'no-smtputf8', 'size-advertised',
           'starttls', 'auth', 'helo-fallback', 'connection-reuse',
           'queue-error-reply', '8bit-body', 'dot-lines', 'bare-newlines',
+          'body-starts-blank',
           'no-final-newline', 'folded-header', '7bit-conversion-refused',
           'rcpt-rejected-by-edge', 'duplicate-recipient']
 STATES_MEASURE = 'distinct (transport, withheld extensions, address kinds, body flags) tuples'
@@ -110,8 +111,12 @@ def generate(seed, tier='quick'):
         if rng.random() < 0.2:
             hdr += b'X-Eight: caf\xc3\xa9\r\n'
         body_kind = rng.choice(['plain', 'dots', 'bare', 'nonl', '8bit',
-                                'empty', 'mixed'])
+                                'empty', 'mixed', 'leadblank', 'leadspace'])
         body = {
+            'leadblank': rng.choice([b'\r\n\r\nfirst line\r\n\r\nlast\r\n',
+                                     b'\r\nx\r\n', b'\r\n', b'\n\nbare\r\n']),
+            'leadspace': rng.choice([b' \r\nafter a blank-looking line\r\n',
+                                     b'\t\r\n\r\nx\r\n', b' x\r\n']),
             'plain': b'line one\r\nline two\r\n',
             'dots': b'.\r\n..\r\n.leading dot\r\nend\r\n.\r\n',
             'bare': b'bare\nlf and bare\rcr\r\nnext\n.\nx\r\n',
@@ -166,7 +171,10 @@ def execute(scn, debug=False):
             flags.add(bk)
             world.probe({'dots': 'dot-lines', 'bare': 'bare-newlines',
                          'nonl': 'no-final-newline', '8bit': '8bit-body',
-                         'mixed': 'bare-newlines'}.get(bk, scn['transport']))
+                         'mixed': 'bare-newlines',
+                         'leadblank': 'body-starts-blank',
+                         'leadspace': 'body-starts-blank'}.get(
+                             bk, scn['transport']))
             if b'X-Folded' in bytes.fromhex(m['hdr']):
                 world.probe('folded-header')
         for e in scn['drop']:
@@ -228,7 +236,10 @@ class CaptureQueue(object):
 def _envelope(m):
     from slimta.envelope import Envelope
     env = Envelope(m['sender'], list(m['rcpts']))
-    env.parse(bytes.fromhex(m['hdr']) + b'\r\n' + bytes.fromhex(m['body']))
+    # header block parsed on its own, body set as is: what is handed to the
+    # relay must not depend on the header/body split under test at the edge
+    env.parse(bytes.fromhex(m['hdr']) + b'\r\n')
+    env.message = bytes.fromhex(m['body'])
     return env
 
 
